@@ -5,8 +5,29 @@
 // "verif". Add-only.
 package sod
 
+import (
+	"reflect"
+	"strings"
+)
+
 // VerifCamelToSnake exposes camelToSnake (directory naming with LowercaseNames)
 func VerifCamelToSnake(s string) string { return camelToSnake(s) }
 
 // VerifCloneObject exposes the cloning used by the cache and the pending store
 func VerifCloneObject(o Object) Object { return CloneObject(o) }
+
+// VerifFieldDescriptorsOf exposes recFieldDescriptors on an arbitrary value (struct types built at
+// run time by the harness cannot implement Object, so FieldDescriptors cannot be given them)
+func VerifFieldDescriptorsOf(v reflect.Value) []FieldDescriptor {
+	s := make([]FieldDescriptor, 0)
+	recFieldDescriptors(v, "", &s)
+	return s
+}
+
+// VerifTransformAt exposes the walk Constraints.TransformField performs along a field path
+func VerifTransformAt(c Constraints, fieldPath string, v reflect.Value) {
+	if !c.Transformer() {
+		return
+	}
+	c.recursiveTransform(strings.Split(fieldPath, "."), v)
+}
